@@ -323,7 +323,9 @@ func (r *LightRenderer) GetChar() Event {
 
 	sz := 1
 	defer func() {
-		r.buffer = r.buffer[sz:]
+		// The buffer can be shorter than the sequence we were looking at if
+		// reading the rest of it has failed
+		r.buffer = r.buffer[util.Min(sz, len(r.buffer)):]
 	}()
 
 	switch r.buffer[0] {
